@@ -71,6 +71,34 @@ func (s DevState) WithImpliedPresence(si *SchemaInfo) DevState {
 	return o
 }
 
+// PersistPresence models the YANG rule that a presence container is a data node of its own: one that existed in the prior
+// state (explicitly, or implicitly through a descendant) stays when its last descendant is removed, unless the change deleted the
+// container or an ancestor explicitly. Devices differ on this; comparisons that use it take the reading under which re-stating or
+// not re-stating an already existing presence container makes no difference.
+func (s DevState) PersistPresence(si *SchemaInfo, prior DevState, deleted []Path) DevState {
+	o := s.WithImpliedPresence(si)
+	for k, l := range prior.WithImpliedPresence(si) {
+		n := si.Node(l.Path)
+		if n == nil || n.Kind != KContainer || !n.Presence {
+			continue
+		}
+		if _, ok := o[k]; ok {
+			continue
+		}
+		covered := false
+		for _, d := range deleted {
+			if l.Path.HasPrefix(d) {
+				covered = true
+				break
+			}
+		}
+		if !covered {
+			o[k] = &Leaf{Path: l.Path.Clone(), Abs: "empty"}
+		}
+	}
+	return o
+}
+
 // Render gives a canonical text form (sorted) for logs and equality.
 func (s DevState) Render() []string {
 	out := make([]string, 0, len(s))
